@@ -104,9 +104,9 @@ func c09Run(tier string, idx int, r *Result) {
 	}
 	tags := []string{"shape:" + shape, fmt.Sprintf("d:%d", d), fmt.Sprintf("e:%d", e), fmt.Sprintf("v:%d", v)}
 	type compiled struct {
-		a    Analyzed
-		want string
-		pc   progCase
+		a     Analyzed
+		want  string
+		pc    progCase
 		depth int
 	}
 	progs := map[int]compiled{}
